@@ -334,7 +334,7 @@ class Tags:
         The tag names are assumed to be persisted in
         Tags.persistFilename(group).
         """
-        if group in (self.global_, self.pseudo) :  group = "group"
+        if group in (self.global_, self.pseudo) :  group = "global"
         if group == self.user:     group = "user"
 
         if not os.path.isdir(dir):
